@@ -73,7 +73,13 @@ pub fn end_script(sh: Shape) -> impl Strategy<Value = EndScript> {
         3 => prop::collection::vec(wop(sh.allow_empty), 0..=sh.max_wops),
         2 => (1u32..=3, 1usize..=sh.max_wops.max(2) * 2).prop_map(|(l, n)| vec![WOp::Write(l); n]),
     ];
-    (ws, w_end, prop::collection::vec(rop(), 0..6), r_end).prop_map(|(mut w, we, mut r, re)| {
+    let complete = sh.complete;
+    (ws, w_end, prop::collection::vec(rop(), 0..6), r_end, any::<u16>()).prop_map(move |(mut w, we, mut r, re, mid)| {
+        // sometimes shut down in the middle of the script: later writes must fail with BrokenPipe
+        if !complete && mid % 5 == 0 && !w.is_empty() {
+            let at = (mid as usize / 5) % w.len();
+            w.insert(at, WOp::Shutdown);
+        }
         if let Some(x) = we {
             w.push(x);
         }
